@@ -12,10 +12,11 @@ Import ListNotations.
 Definition names_ok (o : op) : bool :=
   let ok (n : str) := Nat.leb 3 (List.length n) in
   match o with
-  | OCreateTable ct => ok (ct_table ct)
+  | OCreateTable ct => ok (ct_table ct) && forallb (fun d => ok (id_name d)) (ct_gsi ct ++ ct_lsi ct)
   | OAddTable t _ _ | ODeleteTable t | OPut t _ _ _ _ _ | OGet t _ _ _ | OUpdate t _ _ _ _ _ _ | ODelete t _ _ _ _ _ => ok t
   | OAddIndex t i _ _ => ok t && ok i
-  | OUpdateTable t _ create _ => ok t && match create with Some d => ok (id_name d) | None => true end
+  | OUpdateTable t _ create delete => ok t && match create with Some d => ok (id_name d) | None => true end
+                                    && match delete with Some n => ok n | None => true end
   | OBatchWrite reqs => forallb (fun tr => ok (fst tr)) reqs
   | _ => true
   end.
@@ -109,14 +110,22 @@ Qed.
 
 Lemma update_table_flav c tn defs create delete :
   Nat.leb 3 (List.length tn) = true -> match create with Some d => Nat.leb 3 (List.length (id_name d)) | None => true end = true ->
+  match delete with Some n => Nat.leb 3 (List.length n) | None => true end = true ->
   update_table V1 c tn defs create delete = update_table V2 c tn defs create delete.
 Proof.
-  intros H1 H2. unfold update_table, v1_name_ok. rewrite H1. cbn [negb].
-  destruct (lookup tn (c_tables c)); auto. destruct create as [d|]; auto. now rewrite H2.
+  intros H1 H2 H3. unfold update_table, v1_name_ok. rewrite H1.
+  assert ((match create with Some d => Nat.leb 3 (List.length (id_name d)) | None => true end) = true) as E2 by exact H2.
+  destruct create as [d|]; destruct delete as [n|]; rewrite ?H2, ?H3; cbn [negb andb]; reflexivity.
 Qed.
 
-Lemma create_table_flav c ct : Nat.leb 3 (List.length (ct_table ct)) = true -> create_table V1 c ct = create_table V2 c ct.
-Proof. intros H. unfold create_table, v1_name_ok. now rewrite H. Qed.
+Lemma create_table_flav c ct :
+  Nat.leb 3 (List.length (ct_table ct)) && forallb (fun d => Nat.leb 3 (List.length (id_name d))) (ct_gsi ct ++ ct_lsi ct) = true ->
+  create_table V1 c ct = create_table V2 c ct.
+Proof.
+  intros H. unfold create_table, ct_names_ok, v1_name_ok. rewrite H. cbn [negb].
+  assert (true && forallb (fun _ : index_def => true) (ct_gsi ct ++ ct_lsi ct) = true) as ->; [|reflexivity].
+  cbn. apply forallb_forall. auto.
+Qed.
 
 Lemma run_search_state f c t q : fst (run_search lm f c t q) = c /\ True.
 Proof.
@@ -151,10 +160,10 @@ Theorem clients_same_transition c o :
 Proof.
   intros Hn Hb. destruct o; cbn [names_ok] in Hn; cbn [step]; try contradiction; auto.
   - now rewrite create_table_flav.
-  - rewrite create_table_flav by (cbn; exact Hn). destruct (create_table V2 c _); auto.
+  - rewrite create_table_flav by (cbn [add_table_input ct_table ct_gsi ct_lsi app forallb]; now rewrite Hn). destruct (create_table V2 c _); auto.
   - apply andb_true_iff in Hn as [H1 H2]. rewrite update_table_flav by (auto; exact H2). destruct (update_table V2 c _ _ _ _); auto.
   - unfold v1_name_ok. rewrite Hn. cbn. auto.
-  - apply andb_true_iff in Hn as [H1 H2]. now rewrite (update_table_flav _ _ _ _ _ H1 H2).
+  - apply andb_true_iff in Hn as [H12 H3]. apply andb_true_iff in H12 as [H1 H2]. now rewrite (update_table_flav _ _ _ _ _ H1 H2 H3).
   - now apply put_item_flav.
   - unfold get_item_op. rewrite (preamble_flav c table names [] [proj] Hn). destruct (preamble V2 c table names [] _); auto.
     destruct (get_key _ _ _); auto.
@@ -180,6 +189,26 @@ Proof.
     destruct (batch_tables_flav reqs c [] Hn) as [E1 E2].
     destruct (batch_write_tables lm V1 c reqs []) as [[c1 u1] x1], (batch_write_tables lm V2 c reqs []) as [[c2 u2] x2]; cbn in *.
     inversion E1; subst. destruct x1 as [o1|], x2 as [o2|]; try contradiction; auto.
+Qed.
+
+(* ... and so for whole histories over any number of clients: the two worlds are equal after every history of requests
+   that pass the v1 parameter validation, and the two sequences of result classes are equal *)
+Definition v1_admissible (co : str * op) : Prop :=
+  names_ok (snd co) = true /\ match snd co with OBatchGet _ _ => False | _ => True end.
+
+Theorem clients_same_history ops : forall w,
+  Forall v1_admissible ops ->
+  fst (run lm lu V1 w ops) = fst (run lm lu V2 w ops) /\
+  map o_res (snd (run lm lu V1 w ops)) = map o_res (snd (run lm lu V2 w ops)).
+Proof.
+  induction ops as [|co ops IH]; intros w Ha; cbn [run]; auto.
+  inversion Ha as [|x l [Hn Hb] Hrest]; subst.
+  unfold wstep.
+  destruct (clients_same_transition (match lookup (fst co) w with Some c => c | None => new_client end) (snd co) Hn Hb) as [E1 E2].
+  destruct (step lm lu V1 _ (snd co)) as [c1 o1], (step lm lu V2 _ (snd co)) as [c2 o2]; cbn [fst snd] in *. subst c2.
+  destruct (IH (insert (fst co) c1 w) Hrest) as [F1 F2].
+  destruct (run lm lu V1 (insert (fst co) c1 w) ops) as [w1 obs1], (run lm lu V2 (insert (fst co) c1 w) ops) as [w2 obs2]; cbn [fst snd map] in *.
+  split; [exact F1|]. now rewrite E2, F2.
 Qed.
 
 End Flav.
